@@ -14,6 +14,8 @@ fn main() {
     let mut part = (0usize, 1usize);
     let mut out = "trace.ndjson".to_string();
     let mut scale = 0i32;
+    let mut hist = String::new();
+    let mut dim = 2usize;
     let mut i = 2;
     while i < a.len() {
         match a[i].as_str() {
@@ -26,6 +28,8 @@ fn main() {
             }
             "--out" => { out = a[i + 1].clone(); i += 2; }
             "--scale" => { scale = a[i + 1].parse().unwrap(); i += 2; }
+            "--hist" => { hist = a[i + 1].clone(); i += 2; }
+            "--dim" => { dim = a[i + 1].parse().unwrap(); i += 2; }
             _ => { eprintln!("unknown arg {}", a[i]); std::process::exit(2); }
         }
     }
@@ -47,6 +51,7 @@ fn main() {
         "flips" => drive_flips(&mut cx),
         "remove" => drive_remove(&mut cx),
         "repair" => drive_repair(&mut cx),
+        "caches" => drive_caches(&mut cx, &hist, dim),
         _ => { eprintln!("unknown family {fam}"); std::process::exit(2); }
     }
     cx.tr.flush();
